@@ -34,7 +34,7 @@ func checkC02(c *Ctx) {
 	c.Run.Floor = 50
 	sel := shapeSel{
 		ExtraTypes: commonExtras,
-		Forms: []string{"top", "field"}, QuickDeep: 70, QuickRand: 24, ThorRand: 400, BatchSize: 44,
+		Forms:      []string{"top", "field"}, QuickDeep: 70, QuickRand: 24, ThorRand: 400, BatchSize: 44,
 		KeepShape: behaviouralShape,
 		Ops: func(t *pgen.Type, form string) []string {
 			if form == "top" && topIsCustom(t) {
@@ -56,7 +56,7 @@ func checkC03(c *Ctx) {
 	c.Run.Floor = 50
 	sel := shapeSel{
 		ExtraTypes: commonExtras,
-		Forms: []string{"top", "field"}, QuickDeep: 70, QuickRand: 24, ThorRand: 400, BatchSize: 36,
+		Forms:      []string{"top", "field"}, QuickDeep: 70, QuickRand: 24, ThorRand: 400, BatchSize: 36,
 		KeepShape: behaviouralShape,
 		Ops: func(t *pgen.Type, form string) []string {
 			if form == "top" && topIsCustom(t) {
@@ -82,7 +82,7 @@ func checkC04(c *Ctx) {
 	c.Run.Floor = 50
 	sel := shapeSel{
 		ExtraTypes: commonExtras,
-		Forms: []string{"top", "field"}, QuickDeep: 70, QuickRand: 24, ThorRand: 400, BatchSize: 44,
+		Forms:      []string{"top", "field"}, QuickDeep: 70, QuickRand: 24, ThorRand: 400, BatchSize: 44,
 		KeepShape: func(t *pgen.Type) bool { return behaviouralShape(t) && noCustom(t) },
 		Ops:       func(t *pgen.Type, form string) []string { return []string{"hash", "equal"} },
 	}
@@ -118,7 +118,7 @@ func checkC05(c *Ctx) {
 	c.Run.Floor = 50
 	sel := shapeSel{
 		ExtraTypes: commonExtras,
-		Forms: []string{"top", "field"}, QuickDeep: 70, QuickRand: 24, ThorRand: 400, BatchSize: 44,
+		Forms:      []string{"top", "field"}, QuickDeep: 70, QuickRand: 24, ThorRand: 400, BatchSize: 44,
 		KeepShape: behaviouralShape,
 		Ops: func(t *pgen.Type, form string) []string {
 			ops := []string{"clone"}
